@@ -68,9 +68,9 @@ fn pure_case(acc: &mut Acc, r: &mut Rng) {
 }
 
 pub fn run(ctx: &Ctx) -> (CheckMeta, Acc) {
-    let n = ctx.tier.pick(8, 190);
+    let n = ctx.tier.pick(100, 3000);
     let steps = ctx.tier.pick(150, 400);
-    let per_shard = ctx.scaled(ctx.tier.pick(60_000, 6_000_000));
+    let per_shard = ctx.scaled(ctx.tier.pick(600_000, 60_000_000));
     let ph = hash_str("C13");
     let total = run_shards(ctx, 16, |sh, acc| {
         let (lo, hi) = match &ctx.replay {
